@@ -28,7 +28,7 @@ theorem freqFix (t c : Term) :
 def dflt1 (s : St) : St :=
   if s.dirsIn.isSome then s else
     let f := if s.freq.isNone then Term.inp "F0" else s.freq
-    { setBrdf { s with freq := f } (List.range s.W) "default" with freq := f }
+    { setBrdfT { s with freq := f } (List.range s.W) (.app "ones" [f]) "default" with freq := f }
 
 def dflt2 (s1 : St) : St :=
   if s1.att.isNone then
@@ -339,7 +339,7 @@ def matEq (a b : St) : Prop :=
 /-- Setting attenuation and a wall BRDF commute exactly. -/
 theorem setAtt_setBrdf_comm (s : St) (a : String) (walls : List Nat) (m : String) :
     setAtt (setBrdf s walls m) a = setBrdf (setAtt s a) walls m := by
-  cases h : s.freq.isNone <;> simp [setAtt, setBrdf, h]
+  cases h : s.freq.isNone <;> simp [setAtt, setBrdf, setBrdfT, h]
 
 /-! #### `set_wall_brdf` on disjoint wall sets -/
 
@@ -440,7 +440,7 @@ theorem setBrdf_comm_counterexample :
   have := h { fresh 1 "g" with dirsIn := some [.none], dirsOut := some [.none], index := some [] }
     [0] [] "a" "b" (by simp) (by simp [fresh]) (by simp [fresh])
   have h1 := this.1
-  simp [effAll, eff, setBrdf, fresh, setAll, tableAt] at h1
+  simp [effAll, eff, setBrdf, setBrdfT, fresh, setAll, tableAt] at h1
 
 /-- Two `set_wall_brdf` calls on disjoint wall sets commute up to the private numbering,
     provided every wall has a table afterwards (walls inside the room, the remaining walls
